@@ -212,6 +212,20 @@ def _main(args):
             broken.append({'theorem': d.get('decl'), 'why': 'build error', 'detail': d})
     if forb:
         broken.append({'theorem': None, 'why': 'forbidden tokens', 'detail': forb})
+    leanchecker = None
+    if tier == 'thorough' and bp['ok'] and bm['ok'] and (proof_targets or model_targets):
+        # independent re-check of the compiled modules of this property (Lean's `leanchecker` replays every
+        # declaration of the .olean files through the kernel)
+        import subprocess
+        try:
+            lc = subprocess.run(['lake', 'env', 'leanchecker'] + sorted(set(proof_targets + model_targets)),
+                                cwd=fw.LEAN_DIR, capture_output=True, text=True, timeout=1800)
+            leanchecker = 'ok' if lc.returncode == 0 else 'failed'
+            if lc.returncode != 0:
+                broken.append({'theorem': None, 'why': 'leanchecker', 'detail': (lc.stdout + lc.stderr)[-800:]})
+        except (OSError, subprocess.TimeoutExpired) as exc:
+            leanchecker = 'not run: %r' % (exc,)
+        fw.log('leanchecker: %s' % leanchecker)
     if ex['problems']:
         broken.append({'theorem': None, 'why': 'extractor', 'detail': ex['problems']})
 
@@ -341,6 +355,7 @@ def _main(args):
         'extractor_changed': ex['changed'], 'extractor_problems': ex['problems'],
         'model_build_ok': bm['ok'], 'proof_build_ok': bp['ok'], 'broken_obligations': broken[:10],
         'corpus_cases': len(corpus),
+        'leanchecker': leanchecker,
         'extra_engines': extra_stats,
     }
     doc = {'property_id': pid, 'tier': tier, 'seed': seed, 'level': level, 'coverage': cov,
